@@ -20,126 +20,147 @@ var trickyNames = []string{`Joe "The Boss" Doe`, `back\slash`, `trailing\`, `"`,
 func init() {
 	register(Suite{Name: "c02-format-names", Property: "C02",
 		Rule: "display names (quotes, backslashes, angle brackets, commas, UTF-8, control characters, injection attempts) through FromFormat / AddToFormat / AddCcFormat / ReplyToFormat / AddBccFormat / EnvelopeFromFormat: formatAddress vs model; after an accepted call the getter and the rendered field (parsed with net/mail) hold exactly that name and address, no other address and no additional field; non-trivial = name needs escaping; distinct by (helper, name)",
-		Run: func(c *Ctx) {
-			n := c.N(2500, 120000)
-			for i := 0; i < n; i++ {
-				r := c.Rng
-				var name string
-				switch r.Intn(3) {
-				case 0:
-					name = trickyNames[r.Intn(len(trickyNames))]
-				case 1:
-					name = trickyNames[r.Intn(len(trickyNames))] + genText(r, 3) + trickyNames[r.Intn(len(trickyNames))]
-				default:
-					name = genText(r, 6)
-				}
-				addr := []string{"user@example.com", "first.last@sub.example.org", "x+tag@example.net"}[r.Intn(3)]
-				helper := r.Intn(6)
-				desc := map[string]interface{}{"helper": []string{"FromFormat", "AddToFormat", "AddCcFormat", "ReplyToFormat", "AddBccFormat", "EnvelopeFromFormat"}[helper], "name": name, "addr": addr}
-				needsEsc := strings.ContainsAny(name, "\"\\")
-				c.AddCase(Case{Line: "fmtaddr " + encS(name) + " " + encS(addr), Want: encS(mail.VerifFormatAddress(name, addr)), Nontrivial: needsEsc,
-					Branch: fmt.Sprintf("helper=%d esc=%v", helper, needsEsc), Desc: desc})
+		Run:  runFormatNames})
 
-				// how an accepted address is rendered: addressString vs model (net/mail's String() is a parameter)
-				if ad, perr := netmail.ParseAddress(mail.VerifFormatAddress(name, addr)); perr == nil {
-					spec := (&netmail.Address{Address: ad.Address}).String()
-					c.AddCase(Case{Line: "addrstr " + encS(ad.Name) + " " + encS(ad.String()) + " " + encS(spec), Want: encS(mail.VerifAddressString(ad)),
-						Nontrivial: strings.Contains(ad.Name, "\\"), Branch: fmt.Sprintf("addrstr bs=%v", strings.Contains(ad.Name, "\\")), Desc: desc})
-				}
+	register(Suite{Name: "c06-format-names", Property: "C06",
+		Rule: "the *Format helpers (FromFormat / AddToFormat / AddCcFormat / ReplyToFormat / AddBccFormat / EnvelopeFromFormat) with display names that need quoting, escaping or encoding - quotes, backslashes, commas, UTF-8, no-break and zero-width spaces, soft hyphens, tabs: after an accepted call the getter, the envelope and the rendered From / To / Cc / Reply-To field (parsed with net/mail) hold exactly the name and address that were set, exactly once; Bcc and envelope-from names appear nowhere in the output; formatAddress compared with the Lean model; values that look like encoded-words are left to C02",
+		Run:  runFormatNames})
+}
 
-				m := mail.NewMsg()
-				_ = m.From("sender@example.com")
-				_ = m.To("rcpt@example.com")
-				m.Subject("s")
-				m.SetBodyString(mail.TypeTextPlain, "body")
-				var err error
-				var kind mail.AddrHeader
-				field := ""
-				switch helper {
-				case 0:
-					err, kind, field = m.FromFormat(name, addr), mail.HeaderFrom, "From"
-				case 1:
-					m2 := mail.NewMsg()
-					_ = m2.From("sender@example.com")
-					m2.Subject("s")
-					m2.SetBodyString(mail.TypeTextPlain, "body")
-					m = m2
-					err, kind, field = m.AddToFormat(name, addr), mail.HeaderTo, "To"
-				case 2:
-					err, kind, field = m.AddCcFormat(name, addr), mail.HeaderCc, "Cc"
-				case 3:
-					err, kind, field = m.ReplyToFormat(name, addr), mail.HeaderReplyTo, "Reply-To"
-				case 4:
-					err, kind, field = m.AddBccFormat(name, addr), mail.HeaderBcc, ""
-				default:
-					err, kind, field = m.EnvelopeFromFormat(name, addr), mail.HeaderEnvelopeFrom, ""
-				}
-				c.rep.OracleChecked++
-				if err != nil {
-					c.rep.Branches["oracle:refused"]++
-					continue
-				}
-				c.rep.Branches["oracle:accepted"]++
-				lookalike := strings.Contains(name, "=?")
-				got := m.GetAddrHeader(kind)
-				if len(got) != 1 {
-					c.Violate("c02-format-extra-address", fmt.Sprintf("%d addresses stored after one accepted call", len(got)), desc)
-					continue
-				}
-				if got[0].Address != addr || normWS(got[0].Name) != normWS(name) {
-					if lookalike {
-						c.Violate("c02-encoded-word-lookalike", "a printable value that looks like an encoded-word is emitted verbatim and decodes to something else", desc)
-					} else {
-						c.Violate("c02-format-name-altered", fmt.Sprintf("stored %q <%s>, the caller set %q <%s>", got[0].Name, got[0].Address, name, addr), desc)
-					}
-					continue
-				}
-				res := renderOnce(m, -1)
-				if res.err != nil || res.panic != nil {
-					c.Violate("c02-format-render", fmt.Sprintf("render failed: %v %v", res.err, res.panic), desc)
-					continue
-				}
-				ent, perr := parseEntity(res.out, 0)
-				if perr != nil {
-					c.Violate("c02-format-unparseable", perr.Error(), desc)
-					continue
-				}
-				allowed := map[string]bool{"date": true, "mime-version": true, "message-id": true, "subject": true, "user-agent": true, "x-mailer": true,
-					"from": true, "to": true, "cc": true, "reply-to": true, "content-type": true, "content-transfer-encoding": true}
-				seen := map[string]int{}
-				for _, f := range ent.Fields {
-					k := strings.ToLower(f.Name)
-					seen[k]++
-					if !allowed[k] {
-						c.Violate("c02-format-injected-field", "additional header field "+f.Name, desc)
-					}
-					if seen[k] > 1 {
-						c.Violate("c02-format-duplicate-field", "field "+f.Name+" occurs more than once", desc)
-					}
-				}
-				if string(ent.Body) != "body" && string(ent.Body) != "body\r\n" {
-					c.Violate("c02-format-premature-end", fmt.Sprintf("the body is %q", string(ent.Body)), desc)
-				}
-				if field == "" {
-					continue
-				}
-				v, cnt := ent.Get(field)
-				if cnt != 1 {
-					c.Violate("c02-format-field-count", fmt.Sprintf("%s occurs %d times", field, cnt), desc)
-					continue
-				}
-				names, addrs, aerr := parsedNames(v)
-				if aerr != nil || len(addrs) != 1 {
-					c.Violate("c02-format-field-unparseable", fmt.Sprintf("%s: %q parses to %d addresses (%v)", field, v, len(addrs), aerr), desc)
-					continue
-				}
-				if addrs[0] != addr || normWS(names[0]) != normWS(name) {
-					if lookalike {
-						c.Violate("c02-encoded-word-lookalike", "a printable value that looks like an encoded-word is emitted verbatim and decodes to something else", desc)
-					} else {
-						c.Violate("c02-format-name-altered", fmt.Sprintf("%s renders as %q <%s>, the caller set %q <%s>", field, names[0], addrs[0], name, addr), desc)
-					}
-				}
+// runFormatNames is registered under C02 and under C06 (each property's check stands alone); under C06 the
+// classes are named c06-... and names that look like an encoded-word (a known finding of C02) are not drawn
+func runFormatNames(c *Ctx) {
+	viol := func(class, msg string, d interface{}) {
+		if c.rep.Property == "C06" {
+			class = "c06" + strings.TrimPrefix(class, "c02")
+		}
+		c.Violate(class, msg, d)
+	}
+	n := c.N(2500, 120000)
+	for i := 0; i < n; i++ {
+		r := c.Rng
+		var name string
+		switch r.Intn(3) {
+		case 0:
+			name = trickyNames[r.Intn(len(trickyNames))]
+		case 1:
+			name = trickyNames[r.Intn(len(trickyNames))] + genText(r, 3) + trickyNames[r.Intn(len(trickyNames))]
+		default:
+			name = genText(r, 6)
+		}
+		if r.Chance(15) {
+			// characters a formatting verb would escape instead of passing through
+			name = trickyNames[r.Intn(len(trickyNames))] + []string{"Jean\u00a0Dupont", "zero\u200bwidth", "soft\u00adhyphen", "narrow\u202fspace", "joiner\u200dhere", "bell\u2407sign"}[r.Intn(6)]
+		}
+		if c.rep.Property == "C06" && strings.Contains(name, "=?") {
+			continue
+		}
+		addr := []string{"user@example.com", "first.last@sub.example.org", "x+tag@example.net"}[r.Intn(3)]
+		helper := r.Intn(6)
+		desc := map[string]interface{}{"helper": []string{"FromFormat", "AddToFormat", "AddCcFormat", "ReplyToFormat", "AddBccFormat", "EnvelopeFromFormat"}[helper], "name": name, "addr": addr}
+		needsEsc := strings.ContainsAny(name, "\"\\")
+		c.AddCase(Case{Line: "fmtaddr " + encS(name) + " " + encS(addr), Want: encS(mail.VerifFormatAddress(name, addr)), Nontrivial: needsEsc,
+			Branch: fmt.Sprintf("helper=%d esc=%v", helper, needsEsc), Desc: desc})
+
+		// how an accepted address is rendered: addressString vs model (net/mail's String() is a parameter)
+		if ad, perr := netmail.ParseAddress(mail.VerifFormatAddress(name, addr)); perr == nil {
+			spec := (&netmail.Address{Address: ad.Address}).String()
+			c.AddCase(Case{Line: "addrstr " + encS(ad.Name) + " " + encS(ad.String()) + " " + encS(spec), Want: encS(mail.VerifAddressString(ad)),
+				Nontrivial: strings.Contains(ad.Name, "\\"), Branch: fmt.Sprintf("addrstr bs=%v", strings.Contains(ad.Name, "\\")), Desc: desc})
+		}
+
+		m := mail.NewMsg()
+		_ = m.From("sender@example.com")
+		_ = m.To("rcpt@example.com")
+		m.Subject("s")
+		m.SetBodyString(mail.TypeTextPlain, "body")
+		var err error
+		var kind mail.AddrHeader
+		field := ""
+		switch helper {
+		case 0:
+			err, kind, field = m.FromFormat(name, addr), mail.HeaderFrom, "From"
+		case 1:
+			m2 := mail.NewMsg()
+			_ = m2.From("sender@example.com")
+			m2.Subject("s")
+			m2.SetBodyString(mail.TypeTextPlain, "body")
+			m = m2
+			err, kind, field = m.AddToFormat(name, addr), mail.HeaderTo, "To"
+		case 2:
+			err, kind, field = m.AddCcFormat(name, addr), mail.HeaderCc, "Cc"
+		case 3:
+			err, kind, field = m.ReplyToFormat(name, addr), mail.HeaderReplyTo, "Reply-To"
+		case 4:
+			err, kind, field = m.AddBccFormat(name, addr), mail.HeaderBcc, ""
+		default:
+			err, kind, field = m.EnvelopeFromFormat(name, addr), mail.HeaderEnvelopeFrom, ""
+		}
+		c.rep.OracleChecked++
+		if err != nil {
+			c.rep.Branches["oracle:refused"]++
+			continue
+		}
+		c.rep.Branches["oracle:accepted"]++
+		lookalike := strings.Contains(name, "=?")
+		got := m.GetAddrHeader(kind)
+		if len(got) != 1 {
+			viol("c02-format-extra-address", fmt.Sprintf("%d addresses stored after one accepted call", len(got)), desc)
+			continue
+		}
+		if got[0].Address != addr || normWS(got[0].Name) != normWS(name) {
+			if lookalike {
+				viol("c02-encoded-word-lookalike", "a printable value that looks like an encoded-word is emitted verbatim and decodes to something else", desc)
+			} else {
+				viol("c02-format-name-altered", fmt.Sprintf("stored %q <%s>, the caller set %q <%s>", got[0].Name, got[0].Address, name, addr), desc)
 			}
-		}})
+			continue
+		}
+		res := renderOnce(m, -1)
+		if res.err != nil || res.panic != nil {
+			viol("c02-format-render", fmt.Sprintf("render failed: %v %v", res.err, res.panic), desc)
+			continue
+		}
+		ent, perr := parseEntity(res.out, 0)
+		if perr != nil {
+			viol("c02-format-unparseable", perr.Error(), desc)
+			continue
+		}
+		allowed := map[string]bool{"date": true, "mime-version": true, "message-id": true, "subject": true, "user-agent": true, "x-mailer": true,
+			"from": true, "to": true, "cc": true, "reply-to": true, "content-type": true, "content-transfer-encoding": true}
+		seen := map[string]int{}
+		for _, f := range ent.Fields {
+			k := strings.ToLower(f.Name)
+			seen[k]++
+			if !allowed[k] {
+				viol("c02-format-injected-field", "additional header field "+f.Name, desc)
+			}
+			if seen[k] > 1 {
+				viol("c02-format-duplicate-field", "field "+f.Name+" occurs more than once", desc)
+			}
+		}
+		if string(ent.Body) != "body" && string(ent.Body) != "body\r\n" {
+			viol("c02-format-premature-end", fmt.Sprintf("the body is %q", string(ent.Body)), desc)
+		}
+		if field == "" {
+			continue
+		}
+		v, cnt := ent.Get(field)
+		if cnt != 1 {
+			viol("c02-format-field-count", fmt.Sprintf("%s occurs %d times", field, cnt), desc)
+			continue
+		}
+		names, addrs, aerr := parsedNames(v)
+		if aerr != nil || len(addrs) != 1 {
+			viol("c02-format-field-unparseable", fmt.Sprintf("%s: %q parses to %d addresses (%v)", field, v, len(addrs), aerr), desc)
+			continue
+		}
+		if addrs[0] != addr || normWS(names[0]) != normWS(name) {
+			if lookalike {
+				viol("c02-encoded-word-lookalike", "a printable value that looks like an encoded-word is emitted verbatim and decodes to something else", desc)
+			} else {
+				viol("c02-format-name-altered", fmt.Sprintf("%s renders as %q <%s>, the caller set %q <%s>", field, names[0], addrs[0], name, addr), desc)
+			}
+		}
+	}
 }
